@@ -7,9 +7,12 @@ Content-Encoding preset, Vary preset (single / multi-member / several lines / `*
 Accept-Encoding in either case / members that merely contain the words, e.g. X-Accept-Encoding-Profile),
 explicit Content-Length
 (right or wrong); chunks sized around the 1024-byte threshold (1023/1024/1025 exactly, tiny, empty, up
-to 20000); request Accept-Encoding in {absent, gzip, "gzip, deflate", deflate, identity,
+to 20000), compressible patterns and incompressible ones (so single flushes yield from a few bytes to
+~20 KB of compressed output, in any order); request Accept-Encoding in {absent, gzip, "gzip, deflate", deflate, identity,
 "br;q=1, gzip;q=0.5", x-gzip, GZIP, gzip;q=0, *, *;q=0, "identity, *;q=0", "br, *;q=0.1",
 "br;q=1.0, *;q=0.1", "deflate, *;q=0.0"}; GET/HEAD; HTTP/1.0 (no keep-alive) and 1.1; a second request is pipelined.
+REUSE: in 2/5 of the cases another request with its own write/flush program and Accept-Encoding is served
+first on the same connection / server / Application; both responses are judged independently.
 
 Oracle: the response is read with the strict reader vlib/httpref.py and decoded according to its own
 Content-Encoding with zlib (vlib/httpref.gunzip_strict: complete members, CRC/length trailer verified).
@@ -39,7 +42,7 @@ Finding on the current tree (open, known_findings.d/C29.json + findings_inbox/C2
   bodyless response (304: connection dropped without response; 204: bytes behind the header block).
 With the proposed patch applied to a scratch copy the check is quiet with zero excluded cases.
 
-Sensitivity (quick tier, seed 1, each mutant applied alone to a scratch copy of tornado/web.py; 12 of 13 caught):
+Sensitivity (quick tier, seed 1, each mutant applied alone to a scratch copy of tornado/web.py; 13 of 14 caught):
   transform_first_chunk: Content-Length kept on a non-final first chunk   -> C29.not_well_framed
   transform_chunk: GzipFile.flush() omitted on non-final chunks           -> C29.flush_not_a_sync_point
   transform_first_chunk: Vary overwritten instead of extended             -> C29.vary_lost_program_token
@@ -49,6 +52,11 @@ Sensitivity (quick tier, seed 1, each mutant applied alone to a scratch copy of 
   _compressible_type: always True                                         -> C29.gzip_for_non_compressible_type
   transform_chunk: close() replaced by flush() (no gzip trailer)          -> C29.gzip_body_undecodable
   transform_first_chunk: Vary not set when absent                         -> C29.vary_without_accept_encoding
+  transform_chunk: output BytesIO truncated only when the piece taken is <= 4096 bytes, else just rewound
+      (a flush yielding > 4096 compressed bytes followed by smaller output: stale tail resent, corrupt gzip)
+                                                                             -> C29.gzip_body_undecodable
+      (found by independent mutation testing and MISSED while all generated chunks were highly compressible;
+      incompressible chunks of up to 20000 bytes are generated now)
   send_error (headers already written): buffered output dropped and connection.finish() called directly, so
       the transforms never see the final chunk: chunked body ends cleanly but the gzip member has no
       end-of-stream marker / trailer                                        -> C29.gzip_body_undecodable
@@ -148,8 +156,11 @@ size_s = weighted(
     (2, st.integers(1026, 3000)), (1, st.integers(3001, 20000)),
 )
 # ("fill", n, k): k=1.. gives a repetitive (compressible) pattern
+# ("rand", n, k): incompressible bytes, so that one flush can yield several KiB of compressed output
+rand_size_s = weighted((2, st.integers(1, 1100)), (3, st.integers(4000, 9000)), (1, st.integers(9001, 20000)))
 chunk_s = weighted(
     (6, st.tuples(st.just("fill"), size_s, st.integers(1, 255))),
+    (3, st.tuples(st.just("rand"), rand_size_s, st.integers(0, 9))),
     (1, st.binary(max_size=8)),
     (1, st.sampled_from([b"", b"\x1f\x8b\x08", b"0\r\n\r\n"])),
 )
@@ -179,8 +190,16 @@ prog_s = st.tuples(
     st.lists(st.one_of(flush_op, write_op), max_size=1),
 ).map(lambda t: (t[0] + t[1] + t[2] + t[3])[:8])
 
+# REUSE: an earlier request on the same connection / server / Application (GET /pre, HTTP/1.1 keep-alive) with its
+# own program and Accept-Encoding; the request under test is then the second use.  Both are judged.
+pre0_s = st.fixed_dictionaries({
+    "ae": st.sampled_from([None, "gzip", "gzip", "identity"]),
+    "prog": st.lists(weighted((3, write_op), (2, flush_op)), max_size=4),
+})
+
 case_s = st.fixed_dictionaries(
     {
+        "pre0": weighted((3, st.none()), (2, pre0_s)),
         "method": st.sampled_from(["GET", "GET", "HEAD"]),
         "version": st.sampled_from(["1.1", "1.1", "1.0"]),
         "ae": st.sampled_from(ACCEPT_ENCODINGS + ["gzip", "gzip", "gzip", "gzip"]),
@@ -228,20 +247,39 @@ def flush_points(prog, method):
     return pts
 
 
-def run(prog, method, version, ae):
+def run(prog, method, version, ae, pre0=None):
     extra = [("Accept-Encoding", ae)] if ae is not None else []
     req = rm.build_request(method, version, None, extra)
-    wire, closed, _logs, _s = httpharness.roundtrip(rm.make_app(prog, compress_response=True), req + rm.SECOND_REQUEST)
+    before = b""
+    if pre0 is not None:
+        before = rm.preamble_request([("Accept-Encoding", pre0["ae"])] if pre0["ae"] is not None else [])
+    wire, closed, _logs, _s = httpharness.roundtrip(
+        rm.make_app(prog, compress_response=True, prog0=pre0["prog"] if pre0 else None),
+        before + req + rm.SECOND_REQUEST)
     return wire, closed
 
 
 def run_case(ctx, case):
     method, version, ae, prog = case["method"], case["version"], case["ae"], case["prog"]
     exp = rm.predict(prog, method, None)
-    wire, closed = run(prog, method, version, ae)
+    pre0 = case.get("pre0")
+    wire, closed = run(prog, method, version, ae, pre0)
+    if pre0 is not None:
+        # the earlier request on this connection: well-framed, decodable, carries what its program wrote
+        exp0 = rm.predict(pre0["prog"], "GET", None)
+        try:
+            r0, wire = rm.strip_preamble(wire)
+            body0 = httpref.gunzip_strict(r0.body) if r0.get_all("Content-Encoding") == ["gzip"] else r0.body
+        except (httpref.RefError, zlib.error) as e:
+            ctx.fail("C29.earlier_response_on_connection_broken", {"case": case, "err": repr(e), "wire": wire[:300]})
+            return ctx.note(case, {"reused_connection"}, True)
+        ctx.check(r0.code == exp0.status and body0 == exp0.body, "C29.earlier_response_on_connection_wrong",
+                  {"case": case, "status": r0.code, "got_len": len(body0), "want_len": len(exp0.body)})
     permission = gzip_permission(ae)
     ae_gzip = permission != "no"  # gzip may be applied ("wildcard": EITHER, see gzip_permission)
     labels = {"method_" + method, "http" + version, "ae_" + str(ae), "outcome_" + exp.outcome, "gzip_permission_" + permission}
+    if pre0 is not None:
+        labels.add("reused_connection")
     nontrivial = False
     info = {"case": case, "wire": wire[:400], "wire_len": len(wire), "closed": closed, "model_status": exp.status}
     total = len(exp.body)
